@@ -346,6 +346,15 @@ struct Gen {
 				if(o.db < 0) continue;
 				o.b = alive_slot(o.db);
 				if((o.kind == O_ASSIGN_VIEW || o.kind == O_ASSIGN_ITER || o.kind == O_ASSIGN_RANGE || o.kind == O_FROM) && rng.chance(1, 6)) { o.db = D; o.b = o.a; }  // a view of the target itself
+				if((o.kind == O_ASSIGN_ITER || o.kind == O_ASSIGN_RANGE) && M.at(D, o.a).count() == 0 && M.at(D, o.a).n[0] == 0 && rng.chance(1, 2)) {
+					// an empty range into an empty array: a whole empty array of the same dimensionality, or a view sliced to nothing
+					for(int i = 0; i < NSLOT; ++i)
+						if(i != o.a && M.at(D, i).alive && M.at(D, i).count() == 0 && M.at(D, i).n[0] == 0) { o.db = D; o.b = i; o.cb = Chain{}; }
+					if(o.db == D && o.b != o.a && M.at(D, o.b).count() == 0) {
+						Effect e2;
+						if(plan_effect(M, T, o, e2)) { e = e2; return true; }
+					}
+				}
 				MView v;
 				bool  found = false;
 				if(o.kind != O_CTOR_VIEW && o.kind != O_CTOR_RANGE && o.kind != O_DECAY && rng.chance(1, 2) && M.at(D, o.a).count() > 0) {
